@@ -553,6 +553,8 @@ class FunctionVerifier:
             raise VerifError("float operator %s" % type(op).__name__)
         if isinstance(a, SArr) or isinstance(b, SArr):
             return self.array_binop(st, op, a, b, node, prog)
+        if isinstance(a, STuple) and isinstance(b, STuple) and isinstance(op, ast.Add):
+            return STuple(a.items + b.items)
         raise VerifError("binop on %r, %r (%s)" % (a, b, ast.unparse(node)))
 
     def array_binop(self, st, op, a, b, node, prog):
@@ -702,6 +704,9 @@ class FunctionVerifier:
     def ev_Tuple(self, node, st, prog):
         return STuple([self.ev(e, st, prog) for e in node.elts])
 
+    def ev_List(self, node, st, prog):
+        return STuple([self.ev(e, st, prog) for e in node.elts])
+
     def ev_UnaryOp(self, node, st, prog):
         v = self.ev(node.operand, st, prog)
         if isinstance(node.op, ast.Not):
@@ -719,6 +724,10 @@ class FunctionVerifier:
                 return SFloat(-v.v)
         if isinstance(node.op, ast.UAdd):
             return v
+        if isinstance(node.op, ast.Invert) and isinstance(v, SArr) and is_bool_dtype(st.heap[v.loc].dtype) and self.arr_ndim(st, v) == 1:
+            k = self.fresh_int("k")
+            t = self.arr_term(st, v)
+            return self.new_loc(st, "b1", [self.arr_shape(st, v)[0]], {"v": z3.Lambda([k], z3.Not(z3.Select(t, k)))}, name="not")
         raise VerifError("unary op %s" % ast.unparse(node))
 
     def ev_BinOp(self, node, st, prog):
@@ -883,6 +892,29 @@ class FunctionVerifier:
             k = self.fresh_int("k")
             comps = {c: z3.Lambda([k], z3.Select(z3.Select(nested_select(t, base.prefix), k), j)) for c, t in o.comps.items()}
             return self.new_loc(st, o.dtype, [shp[0]] + list(shp[2:]), comps, name="col")
+        # general case: a mix of integer indices and full slices `:` -> array value over the sliced axes
+        if len(elts) <= len(shp) and all((isinstance(e, ast.Slice) and e.lower is None and e.upper is None and e.step is None) or not isinstance(e, ast.Slice) for e in elts):
+            idx = []
+            lam_vars = []
+            new_shape = []
+            for d, e in enumerate(elts):
+                if isinstance(e, ast.Slice):
+                    k = z3.Int("view!k%d" % d)  # fixed bound names: equal views are identical terms
+                    lam_vars.append(k)
+                    idx.append(k)
+                    new_shape.append(shp[d])
+                else:
+                    ix = self.as_int(self.ev(e, st, prog)).e
+                    if prog:
+                        self.oblige("index-in-bounds", self.stmt_anchor(node), z3.And(ix >= 0, ix < shp[d]), st, node)
+                    idx.append(ix)
+            comps = {}
+            for c, t in o.comps.items():
+                body = nested_select(nested_select(t, base.prefix), idx)
+                for k in reversed(lam_vars):
+                    body = z3.Lambda([k], body)
+                comps[c] = body
+            return self.new_loc(st, o.dtype, new_shape + list(shp[len(elts):]), comps, name="view")
         raise VerifError("unsupported slice expression %s" % ast.unparse(node))
 
     def ev_Lambda(self, node, st, prog):
@@ -1086,8 +1118,6 @@ class FunctionVerifier:
             return False
         if z3.is_true(c):
             return True
-        if self.dry:
-            return True
         return self.E.quick_feasible(st.facts() + [c])
 
     def st_If(self, node, st):
@@ -1176,6 +1206,9 @@ class FunctionVerifier:
             return v
         if isinstance(v, SRange):
             return v
+        if isinstance(v, SArrVal):
+            comps = {c: self.fresh("%s_%s" % (n, c), t.sort()) for c, t in v.comps.items()}
+            return SArrVal(v.dtype, v.shape, comps)
         raise VerifError("cannot havoc %s = %r" % (n, v))
 
     def check_invs(self, ls, st, kind, anchor, node, env_over=None):
@@ -1230,20 +1263,26 @@ class FunctionVerifier:
     def body_types(self, node, st, ls, names, stores, setup):
         """dry run of the loop body to discover int->float promotions of havoc'd variables"""
         promote = {}
+        self.loop_newvars = {}
         self.dry += 1
         try:
             for _ in range(3):
                 s = st.fork()
                 self.havoc(s, names, stores, promote)
                 setup(s)
-                try:
-                    res = self.exec_block(node.body, s)
-                except VerifError:
-                    raise
+                pre_keys = set(s.env)
+                pre_types = {n: type(s.env[n]) for n in names if n in s.env}
+                res = []
+                for s_h in self.run_ghost(ls.head, s):
+                    res.extend(self.exec_block(node.body, s_h))
                 changed = False
                 for s2, oc in res:
                     for n in names:
-                        if n in s.env and n in s2.env and isinstance(s.env[n], SInt) and isinstance(s2.env[n], SFloat):
+                        if n not in pre_keys and n in s2.env and n not in self.loop_newvars:
+                            # first bound inside the loop body: remember a value of its type
+                            self.loop_newvars[n] = s2.env[n]
+                    for n in names:
+                        if n in pre_types and n in s2.env and pre_types[n] is SInt and isinstance(s2.env[n], SFloat):
                             if promote.get(n) != "float":
                                 promote[n] = "float"
                                 changed = True
@@ -1288,12 +1327,16 @@ class FunctionVerifier:
             s.assume(z3.And(ctr >= lo, ctr < hi))
 
         promote = self.body_types(node, st, ls, names, stores, setup)
+        newvars = dict(self.loop_newvars)
         for n, t in promote.items():
             if t == "float" and isinstance(st.env.get(n), SInt):
                 st.env[n] = self.to_float(st.env[n])
         out = []
         # 2. arbitrary iteration
         s = st.fork()
+        for n_, v_ in newvars.items():
+            if n_ not in s.env and not isinstance(v_, SArr):
+                s.env[n_] = v_  # value left by an earlier iteration (havoc'd below)
         self.havoc(s, names, stores, promote)
         setup(s)
         self.assume_invs(ls, s)
@@ -1308,6 +1351,11 @@ class FunctionVerifier:
                     out.append((s2, oc))
         # 3. after the loop
         s = st.fork()
+        for n_, v_ in newvars.items():
+            # variables first bound in the body exist afterwards (if the loop ran; otherwise Python
+            # raises NameError on use, which is outside the modelled behaviour)
+            if n_ not in s.env and not isinstance(v_, SArr):
+                s.env[n_] = v_
         self.havoc(s, names, stores, promote)
         self.assume_invs(ls, s, {tv: SInt(end)})
         if pre_tv is not None and isinstance(pre_tv, SInt):
@@ -1526,6 +1574,11 @@ class FunctionVerifier:
                     raise VerifError("contract of %s names loop %d but the function has %d loops" % (cd.qualname, k, nloops))
         for name, ty in cd.params:
             st.env[name] = self.make_param(st, name, ty)
+        for name, tstr in (cd.options.get("ghost_params") or {}).items():
+            gty = C.parse_type(ast.parse(tstr, mode="eval").body)
+            st.env[name] = self.make_param(st, name, gty)
+            if isinstance(st.env[name], SArr):
+                st.env[name] = self.arr_value(st, st.env[name])
         if cd.defs:
             self.ghost_mode += 1
             try:
